@@ -44,8 +44,8 @@ ScalarKinds == {"string", "key", "bool", "int32", "int64", "uint32", "uint64", "
 LeafKinds   == ScalarKinds \cup {"enum"}
 AllKinds    == LeafKinds \cup {"object", "oneof", "anyj5", "anypb"}
 AllCards    == {"one", "opt", "arr", "map"}
-\* "flat2": a flattened object inside a flattened object (both are inlined into the root)
-AllPositions == {"top", "nested", "arrelem", "mapval", "arm", "armdirect", "flat", "flat2", "exposed", "expdirect", "rootoneof"}
+\* "flat2": a flattened object inside a flattened object (both are inlined into the root); "flat3": three levels
+AllPositions == {"top", "nested", "arrelem", "mapval", "arm", "armdirect", "flat", "flat2", "flat3", "exposed", "expdirect", "rootoneof"}
 
 (* ---------------- the representation table (README "Scalar Types") ---------------- *)
 
@@ -173,6 +173,8 @@ RootSch(kind, card, pos) ==
       [] pos = "armdirect" -> ObjS("Root", <<Sib, P("choice", "one", OneofS("Choice", <<FocusProp(kind, "one"), P("armB", "one", Other)>>))>>)
       [] pos = "flat"      -> ObjS("Root", <<Sib, PFlat("flat", Box(kind, card))>>)
       [] pos = "flat2"     -> ObjS("Root", <<Sib, PFlat("outer", ObjS("Mid", <<P("midTag", "one", LeafS("string")), PFlat("flat", Box(kind, card))>>))>>)
+      [] pos = "flat3"     -> ObjS("Root", <<Sib, PFlat("outer", ObjS("Mid", <<P("midTag", "one", LeafS("string")),
+                                    PFlat("inner", ObjS("Mid2", <<P("mid2Tag", "one", LeafS("string")), PFlat("flat", Box(kind, card))>>))>>))>>)
       [] pos = "exposed"   -> ObjS("Root", <<Sib, PExp("pick", OneofS("PickX", <<P("armA", "one", Box(kind, card)), P("alt", "one", LeafS("string"))>>))>>)
       [] pos = "expdirect" -> ObjS("Root", <<Sib, PExp("pick", OneofS("PickX", <<FocusProp(kind, "one"), P("alt", "one", LeafS("string"))>>))>>)
       [] pos = "rootoneof" -> OneofS("Root", <<P("armA", "one", Box(kind, card)), P("armB", "one", Other)>>)
@@ -228,6 +230,8 @@ RootVal(pos, sibset, tagged, fm) ==
       [] pos = "armdirect" -> ObjV(SibM(sibset) \o <<KV("choice", OneofV(fm))>>)
       [] pos = "flat"      -> ObjV(SibM(sibset) \o <<KV("flat", BoxV(tagged, fm))>>)
       [] pos = "flat2"     -> ObjV(SibM(sibset) \o <<KV("outer", ObjV(<<KV("midTag", Atom("ascii")), KV("flat", BoxV(tagged, fm))>>))>>)
+      [] pos = "flat3"     -> ObjV(SibM(sibset) \o <<KV("outer", ObjV(<<KV("midTag", Atom("ascii")),
+                                    KV("inner", ObjV(<<KV("mid2Tag", Atom("html")), KV("flat", BoxV(tagged, fm))>>))>>))>>)
       [] pos = "exposed"   -> ObjV(SibM(sibset) \o <<KV("pick", OneofV(<<KV("armA", BoxV(tagged, fm))>>))>>)
       [] pos = "expdirect" -> ObjV(SibM(sibset) \o (IF fm = <<>> THEN <<>> ELSE <<KV("pick", OneofV(fm))>>))
       [] pos = "rootoneof" -> OneofV(<<KV("armA", BoxV(tagged, fm))>>)
@@ -549,7 +553,7 @@ EndValue ==
     \* a fault needs a member to sit in: a zero value without presence is omitted from the document
     /\ (Mode = "fault" => ~(card = "one" /\ kind \in LeafKinds /\ pos \notin {"armdirect", "expdirect"} /\ elems[1].a \in ZeroAtoms(kind)))
     /\ \E tg \in BOOLEAN :
-        /\ (~tg => (elems = <<>> \/ pos \in {"flat", "flat2"}) /\ pos \notin {"top", "armdirect", "expdirect"} /\ Mode \in {"val", "spell"})
+        /\ (~tg => (elems = <<>> \/ pos \in {"flat", "flat2", "flat3"}) /\ pos \notin {"top", "armdirect", "expdirect"} /\ Mode \in {"val", "spell"})
         /\ tagged' = tg
     /\ phase' = (CASE Mode = "val" -> "done" [] Mode = "spell" -> "spell" [] Mode = "fault" -> "fault" [] Mode = "query" -> "spell")
     /\ UNCHANGED <<kind, card, pos, anyc, elems, lbls, wfonly, sp, ws, fcls>>
@@ -598,7 +602,7 @@ Doc == EncNode(Schema, Value, sp)                     \* the document to decode 
 DecDoc == DecNode(Schema, Doc, anyc)
 Label == IF lbls = <<>> THEN "unset" ELSE IF Len(lbls) = 1 THEN lbls[1] ELSE lbls[1] \o "+" \o lbls[2]
 
-QueryPath == CASE pos = "top" -> FocusName [] pos \in {"flat", "flat2"} -> FocusName [] pos = "nested" -> "box." \o FocusName
+QueryPath == CASE pos = "top" -> FocusName [] pos \in {"flat", "flat2", "flat3"} -> FocusName [] pos = "nested" -> "box." \o FocusName
                [] pos = "arm" -> "choice.armA." \o FocusName [] pos = "exposed" -> "pick.armA." \o FocusName [] OTHER -> FocusName
 Query == [i \in 1..Len(elems) |-> [path |-> QueryPath, kind |-> kind, a |-> elems[i].a, f |-> sp.form]]
 QueryVal == RootVal(pos, FALSE, FALSE, FocusMember(card, elems))
